@@ -1,33 +1,42 @@
 #!/usr/bin/env python3
-"""Run every confirmed seeded change (/verif/seeded/<id>/patch.diff) against the check of the property it breaks:
-apply to /repo, ./check <prop> --tier quick --no-evidence, undo.  Writes /verif/seeded/DETECTION.json.
-NOTE: modifies /repo's working tree while running - do not run other checks at the same time."""
+"""Run every confirmed seeded change (/verif/seeded/<id>/patch.diff) against the check of the property it breaks, each in its OWN
+scratch worktree of /repo (VERIF_REPO=<worktree> ./check <prop> --tier quick --no-evidence), several at a time; /repo itself is
+never touched.  Writes /verif/seeded/DETECTION.json.   usage: seedmatrix.py [-j N] [ids...]"""
 import json, os, re, subprocess, sys
+from concurrent.futures import ThreadPoolExecutor
 SEEDED = "/verif/seeded"
-only = set(sys.argv[1:])
-res = {}
+args = sys.argv[1:]
+jobs = 3
+if args and args[0] == "-j":
+    jobs = int(args[1]); args = args[2:]
+only = set(args)
 path = os.path.join(SEEDED, "DETECTION.json")
-if os.path.exists(path):
-    res = json.load(open(path))
-st = subprocess.run("git -C /repo status --porcelain --untracked-files=no", shell=True, stdout=subprocess.PIPE, text=True).stdout.strip()
-assert not st, "repo not clean: " + st
-for mid in sorted(os.listdir(SEEDED)):
+res = json.load(open(path)) if os.path.exists(path) else {}
+
+
+def one(mid):
     d = os.path.join(SEEDED, mid)
-    if not os.path.isdir(d) or (only and mid not in only):
-        continue
     meta = json.load(open(os.path.join(d, "meta.json")))
     prop = meta["breaks_property"]
-    a = subprocess.run(f"git -C /repo apply {d}/patch.diff", shell=True, stdout=subprocess.PIPE, stderr=subprocess.STDOUT, text=True)
-    if a.returncode != 0:
-        res[mid] = dict(property=prop, applies=False)
-        subprocess.run("git -C /repo reset -q --hard HEAD", shell=True)
-        continue
+    wt = f"/tmp/seedmatrix_wt_{mid}"
+    subprocess.run(f"git -C /repo worktree remove --force {wt}", shell=True, stdout=subprocess.DEVNULL, stderr=subprocess.DEVNULL)
+    subprocess.run(f"git -C /repo worktree add -q --detach {wt} HEAD", shell=True, check=True)
     try:
-        p = subprocess.run(["./check", prop, "--tier", "quick", "--no-evidence"], cwd="/verif", stdout=subprocess.PIPE, stderr=subprocess.STDOUT, text=True, timeout=3000)
+        a = subprocess.run(f"git -C {wt} apply {d}/patch.diff", shell=True, stdout=subprocess.PIPE, stderr=subprocess.STDOUT, text=True)
+        if a.returncode != 0:
+            return mid, dict(property=prop, applies=False)
+        p = subprocess.run(["./check", prop, "--tier", "quick", "--no-evidence"], cwd="/verif", env=dict(os.environ, VERIF_REPO=wt),
+                           stdout=subprocess.PIPE, stderr=subprocess.STDOUT, text=True, timeout=3000)
         keys = re.findall(r"^  key=(\S+) cases=(\d+)", p.stdout, re.M)
-        res[mid] = dict(property=prop, applies=True, rc=p.returncode, detected=p.returncode == 1, keys=[k for k, _ in keys][:8], cases=sum(int(n) for _, n in keys))
+        return mid, dict(property=prop, applies=True, rc=p.returncode, detected=p.returncode == 1, keys=[k for k, _ in keys][:8], cases=sum(int(n) for _, n in keys))
     finally:
-        subprocess.run("git -C /repo reset -q --hard HEAD", shell=True)
-    print(mid, res[mid].get("rc"), res[mid].get("keys", [])[:3], flush=True)
-    json.dump(res, open(path, "w"), indent=1, sort_keys=True)
+        subprocess.run(f"git -C /repo worktree remove --force {wt}", shell=True, stdout=subprocess.DEVNULL, stderr=subprocess.DEVNULL)
+
+
+ids = [m for m in sorted(os.listdir(SEEDED)) if os.path.isdir(os.path.join(SEEDED, m)) and (not only or m in only)]
+with ThreadPoolExecutor(max_workers=jobs) as ex:
+    for mid, r in ex.map(one, ids):
+        res[mid] = r
+        print(mid, r.get("rc"), r.get("keys", [])[:3], flush=True)
+        json.dump(res, open(path, "w"), indent=1, sort_keys=True)
 print("detected", sum(1 for r in res.values() if r.get("detected")), "of", len(res))
